@@ -9,14 +9,16 @@ R: Gen_Tsig prints every applicable (request description, policy) with mayEffect
    (and its single-bit-flipped copies) to the TSigVerifier.
 T: for a corpus of authentic UPDATE/AXFR requests EVERY single-bit flip, single-byte deletion and
    insertion is sent; each is classified into a message region by an independent wire walker and
-   judged by the TLA+ monitor Trace_Tsig.
+   judged by the TLA+ monitor Trace_Tsig.  Client side: signed AXFR / UPDATE requests go through the
+   real DnsMultiplexer (drive_c16 mux-tsig); replies of 1-4 chained messages, one of which may have a
+   flipped bit, a garbage MAC or another key's MAC, are judged per message by the same monitor.
 """
 import json
 import os
 
 import vlib
 
-BINS = ["drive_tsig"]
+BINS = ["drive_tsig", "drive_c16"]
 TAMPERS = ('{"none", "msgId", "appended", "flags", "count", "zone", "prereq", "update", "tsigTime", "tsigFudge", '
            '"tsigOrigId", "tsigError", "tsigOther", "macBit"}')
 GEN_CFG = ["SPECIFICATION Spec", "CONSTANTS", "  Fudge = 300", "  Dts <- P_Dts", "  Tampers <- P_Tampers",
@@ -78,7 +80,31 @@ def run(res, tier, seed):
     t2 = os.path.join(wd, "mut.trace.ndjson")
     vlib.run_driver("drive_tsig", ["record", "--trace", t2, "--n", str(n_corpus), "--seed", str(seed)],
                     stdout_path=os.path.join(wd, "mut.out"), timeout=3000)
-    lines = open(t1).read().splitlines(keepends=True) + open(t2).read().splitlines(keepends=True)
+    # ---- T, client side: signed requests through the real DnsMultiplexer; single- and multi-message
+    # replies (RFC 8945 5.3.1 chains) with one message altered / forged on the path
+    n_mux = 40 if tier == "thorough" else 12
+    t3 = os.path.join(wd, "muxtsig.trace.ndjson")
+    vlib.run_driver("drive_c16", ["mux-tsig", "--trace", t3, "--n", str(n_mux), "--seed", str(seed)],
+                    stdout_path=os.path.join(wd, "muxtsig.out"))
+    mux_events = chains_ok = forged_msgs = 0
+    with open(t3) as f:
+        for ln in f:
+            e = json.loads(ln)
+            mux_events += 1
+            kinds = [m["kind"] for m in e["msgs"]]
+            if e["scenario"] == "chain-genuine" and len(kinds) >= 2 and all(m["result"] == "ok" for m in e["msgs"]):
+                chains_ok += 1
+            if any(k != "genuine" for k in kinds):
+                forged_msgs += 1
+                res.nontrivial.add(e["case"])
+    if chains_ok == 0 or forged_msgs == 0:
+        raise vlib.ToolError(f"vacuous multiplexer run: genuine chains delivered={chains_ok}, cases with a forged message={forged_msgs}")
+    res.traces += mux_events
+    res.evaluations += mux_events
+    res.extra.update({"multiplexer_signed_request_cases": mux_events, "multiplexer_genuine_chains_delivered": chains_ok,
+                      "multiplexer_cases_with_forged_message": forged_msgs})
+    lines = (open(t1).read().splitlines(keepends=True) + open(t2).read().splitlines(keepends=True)
+             + open(t3).read().splitlines(keepends=True))
     shards = 12 if tier == "thorough" else 6
     files = []
     for i in range(shards):
@@ -108,6 +134,13 @@ def run(res, tier, seed):
     res.extra.update({"mutated_requests_sent": nm, "corpus": n_corpus, "genuine_after_sweep_effective": genuine_eff})
     for m in mism:
         ev = m["event"]
+        if ev.get("ev") == "muxreply":
+            bad = [i + 1 for i, x in enumerate(ev["msgs"]) if x["kind"] != "genuine" and x["result"] == "ok"]
+            cls = "modified-reply-accepted-by-multiplexer" if m.get("forgedAccepted") else "genuine-signed-reply-not-delivered-by-multiplexer"
+            res.mismatch(cls, {"scenario": ev["scenario"], "op": ev["op"],
+                               "kind": ev["msgs"][bad[0] - 1]["kind"] if bad else "genuine",
+                               "first_message": bool(bad) and bad[0] == 1}, m)
+            continue
         r = ev["r"]
         if ev["effect"] and not m.get("mayEffect", True):
             cls = f"effect-without-valid-tsig:{r['tamper']}"
